@@ -40,6 +40,8 @@ import LdkModel.Proofs.OnionInstr
 import LdkModel.Proofs.OnionBlinded
 import LdkModel.Proofs.OnionPayload
 import LdkModel.Model.OnionFwdInfo
+import LdkModel.Generated.OnionBlame
+import LdkModel.Generated.OnionInbFail
 namespace Ldk.C14
 open Ldk Ldk.Onion Ldk.OnionPayload
 
@@ -1187,6 +1189,74 @@ example : relayBlinded (some [1]) none
     = [some ⟨[1], none, .fromIntroductionNode⟩, some ⟨[1, 0], some [9], .fromBlindedNode⟩, some ⟨[9], none, .fromBlindedNode⟩, some ⟨[9, 5], none, .fromBlindedNode⟩] := by
   decide
 example : (keyAfter (some [1]) [(⟨fun e => some (e ++ [0]), none⟩ : BlindedHopSpec)]).isSome := by decide
+
+/-! ## the sender's blame policy
+
+   `blameDecision` — the flag predicates, the "only the final node may send" list (is_recipient_failure),
+   `payment_failed`, the BADONION / NODE / PERM / UPDATE / payment_failed / else chain of process_onion_failure_inner and
+   `payment_failed_permanently` — is TRANSLATED from the Rust source on every run (Generated/OnionBlame.lean). -/
+
+/-- **A failure authenticated by a NON-final hop always penalises a channel or node on the path and never fails the
+    payment permanently** — for every 16-bit (indeed every) code, including the codes only the recipient may send
+    (incorrect_payment_details, final_incorrect_cltv_expiry, final_incorrect_htlc_amount, mpp_timeout) and unknown ones,
+    with or without a well-framed channel_update. -/
+theorem blame_non_final_names_hop_never_permanent (c : Nat) (update_ok : Bool) :
+    (blameDecision c false true update_ok).network_update.isSome = true
+    ∧ (blameDecision c false true update_ok).payment_failed_permanently = false := by
+  unfold blameDecision
+  generalize isBadonion c = b1; generalize isNode c = b2; generalize isPermanent c = b3
+  generalize isTemporary c = b4; generalize isRecipientFailure c = b5; generalize (c == 18 || c == 19) = b6
+  cases b1 <;> cases b2 <;> cases b3 <;> cases b4 <;> cases b5 <;> cases b6 <;> cases update_ok <;> exact ⟨rfl, rfl⟩
+
+example : (blameDecision 23 false true false) = ⟨some (.nodeFailure true), some .routeHop, false⟩ := by decide
+
+/-- **Only a PERM code from the final hop fails the payment permanently** (all codes, all hop kinds). -/
+theorem blame_permanent_only_from_final (c : Nat) (is_final fr update_ok : Bool) :
+    (blameDecision c is_final fr update_ok).payment_failed_permanently = (isPermanent c && is_final) := by
+  unfold blameDecision
+  generalize isBadonion c = b1; generalize isNode c = b2; generalize isPermanent c = b3
+  generalize isTemporary c = b4; generalize isRecipientFailure c = b5; generalize (c == 18 || c == 19) = b6
+  cases b1 <;> cases b2 <;> cases b3 <;> cases b4 <;> cases b5 <;> cases b6 <;> cases update_ok <;> cases is_final <;> cases fr <;> rfl
+
+example : (blameDecision 16399 true true false).payment_failed_permanently = true := by decide
+
+/-- **A recipient-only code from the final hop penalises nobody** (the payment parameters failed, not the route); the
+    recipient's channel is named only when a value of the HTLC did not match the onion (codes 18 / 19). -/
+theorem blame_final_recipient_failure_penalises_nobody (c : Nat) (fr update_ok : Bool) (h : isRecipientFailure c = true) :
+    (blameDecision c true fr update_ok).network_update = none
+    ∧ ((blameDecision c true fr update_ok).short_channel_id.isSome = (c == 18 || c == 19)) := by
+  simp only [isRecipientFailure, Bool.or_eq_true, beq_iff_eq] at h
+  rcases h with ((rfl | rfl) | rfl) | rfl <;> cases fr <;> cases update_ok <;> decide
+
+/-! ## what a hop answers when it cannot decode / forward (decode_incoming_update_add_htlc_onion)
+
+   `inboundFailure` — the closures encode_malformed_error / encode_relay_error and every site that calls them — is TRANSLATED
+   from the Rust source on every run (Generated/OnionInbFail.lean). -/
+
+/-- **No hop inside a blinded path ever reveals a non-blinded failure code**: whenever the incoming update_add_htlc
+    carries a blinding point, EVERY failure site (bad ephemeral key, unknown version, any Malformed / Relay decode error
+    with any reason code, a failed blinded-forward check) answers update_fail_malformed_htlc with
+    invalid_onion_blinding and an all-zero sha256_of_onion — never an onion error packet, never another code. -/
+theorem blinded_hop_never_reveals_failure_code (site : InboundFailSite) :
+    inboundFailure true site = .malformed .zeros INVALID_ONION_BLINDING := by
+  cases site <;> rfl
+
+/-- **The introduction node** (no blinding point in the message) answers a failed blinded-forward check with an
+    encrypted invalid_onion_blinding failure with 32 zero bytes, and an invalid_onion_blinding decode error with the
+    zero sha; any other malformed-onion error outside a blinded path keeps its code and carries the hash of the hop data. -/
+theorem unblinded_hop_failure_answers (c : Nat) :
+    inboundFailure false .blindedForwardCheck = .relay INVALID_ONION_BLINDING (zeros 32)
+    ∧ inboundFailure false .dummyCheck = .relay INVALID_ONION_BLINDING (zeros 32)
+    ∧ inboundFailure false (.decodeMalformed INVALID_ONION_BLINDING) = .malformed .zeros INVALID_ONION_BLINDING
+    ∧ (c ≠ INVALID_ONION_BLINDING → inboundFailure false (.decodeMalformed c) = .malformed .hashOfHopData c)
+    ∧ inboundFailure false (.decodeRelay c) = .relay c [] := by
+  refine ⟨rfl, rfl, rfl, ?_, rfl⟩
+  intro h
+  have : (c == 49176) = false := by simpa [INVALID_ONION_BLINDING] using h
+  simp [inboundFailure, encodeMalformedError, this]
+
+example : inboundFailure true (.decodeMalformed 49157) = .malformed .zeros 49176 := by decide
+example : inboundFailure false (.decodeMalformed 49157) = .malformed .hashOfHopData 49157 := by decide
 
 /-! ## non-vacuity (a toy stream/MAC, evaluated by the kernel) -/
 
